@@ -107,9 +107,19 @@ impl SlotBlockData {
         debug_assert_eq!(shred.payload().header.slot, self.slot);
         let block_data = self
             .repaired
-            .entry(hash)
+            .entry(hash.clone())
             .or_insert_with(|| BlockData::new(self.slot));
-        block_data.add_shred(shred, shredder)
+        let result = block_data.add_shred(shred, shredder);
+        // never keep (or announce) a block under a hash its content does not hash to,
+        // e.g. if the leader signed the same slice both with and without the last-slice marker
+        if let Ok(Some(BlockstoreEvent::Block { block_info, .. })) = &result
+            && block_info.hash != hash
+        {
+            warn!("repaired block does not match requested hash in slot {}", self.slot);
+            self.repaired.remove(&hash);
+            return Err(AddShredError::InvalidShred);
+        }
+        result
     }
 
     /// Ingests a slice that the local node produced itself (as the leader).
